@@ -17,7 +17,7 @@ import (
 // key->value map alone, and all paths into one final map must agree.
 
 var c03keys = []string{"a", "ab", "abc", "b"}
-var c03vals = []string{"v1", "v22", ""} // "" = delete
+var c03vals = []string{"v1", "s", ""} // "" = delete; "s" is also the value the pre-populated store holds (writing back the stored value)
 
 type c03op struct{ k, v int }
 
@@ -80,9 +80,9 @@ func c03run(ops []c03op, prefill map[string]string) (hash, listing string, refKe
 func TestVerif_C03(t *testing.T) {
 	r := vh.Start(t, "C03", "changehash")
 	defer r.Finish()
-	depth := r.Pick(5, 7)
+	depth := r.Pick(5, 6)
 	r.Rule("every operation sequence of length<=D over 4 prefix-sharing keys x {put v1, put v2, delete} (incl. delete-of-absent, overwrite-same, delete-then-recreate), on an overlay over an empty and over a pre-populated store; states = distinct final key->value maps, transitions = operations applied to the real OverlayDB, traces = complete sequences; each path's ChangeHash and write-set listing compared with the value computed from the final map alone")
-	r.Bound(fmt.Sprintf("depth<=%d, 12 symbols", depth))
+	r.Bound(fmt.Sprintf("depth<=%d, 12 symbols (4 keys x {v1, the stored value, delete}), over an empty and a pre-populated store", depth))
 
 	var rc struct {
 		Ops     []string `json:"ops"`
@@ -157,7 +157,7 @@ func TestVerif_C03(t *testing.T) {
 				ops[i] = c03op{x / len(c03vals), x % len(c03vals)}
 			}
 			check(ops, 0)
-			if d <= depth-2 {
+			if d <= depth-1 {
 				check(ops, 1)
 			}
 			return true
@@ -165,7 +165,7 @@ func TestVerif_C03(t *testing.T) {
 	}
 	c03macro(r)
 	r.Eval(r.R.Traces)
-	r.Sample(map[string]interface{}{"ops": []string{"put(a,v1)", "del(a)", "put(ab,v22)", "put(a,v22)"}, "final": "a=v22,ab=v22"})
+	r.Sample(map[string]interface{}{"ops": []string{"put(a,v1)", "del(a)", "put(ab,s)", "put(a,s)"}, "final": "a=s,ab=s"})
 	r.Need(len(states) >= 100 || r.R.NShards > 1, "only %d final maps reached", len(states))
 }
 
